@@ -260,7 +260,7 @@ def run(mod, args, seed, t0, tree):
     wall = time.time() - t0
     exhaustive = (not capped) and not errors and done == n_items
     cov = {
-        'evaluations': agg['evals'],
+        'evaluations': max(agg['evals'], agg['transitions']),     # executions of the real code (operations applied for history/state searches)
         'distinct_nontrivial': agg['nontrivial'],
         'rule': mod.RULE,
         'samples': util.jsonable(samples[:6]),
